@@ -24,7 +24,9 @@ fn pick(v: &[VehicleIdx], k: &serde_json::Value) -> Option<VehicleIdx> {
 
 fn pick3(all: &[VehicleIdx], real: &[VehicleIdx], dummies: &[VehicleIdx], k: &serde_json::Value) -> Option<VehicleIdx> {
     let n = k.as_u64().unwrap();
-    if n >= 4000 {
+    if n >= 5000 {
+        unreachable!() // resolved by the caller (needs the schedule)
+    } else if n >= 4000 {
         dummies.iter().max().copied() // the newest dummy tour
     } else if n >= 3000 {
         real.iter().max().copied() // the newest real vehicle
@@ -34,6 +36,25 @@ fn pick3(all: &[VehicleIdx], real: &[VehicleIdx], dummies: &[VehicleIdx], k: &se
         pick(dummies, &serde_json::json!(n - 1000))
     } else {
         pick(all, k)
+    }
+}
+
+/// 5000 + k: the k-th (mod count) real vehicle whose tour starts or ends at the overflow depot; everything else as pick3
+fn pick4(s: &Schedule, all: &[VehicleIdx], real: &[VehicleIdx], dummies: &[VehicleIdx], k: &serde_json::Value) -> Option<VehicleIdx> {
+    let n = k.as_u64().unwrap();
+    if n >= 5000 {
+        let (_, osd, oed) = s.get_network().overflow_depot_idxs();
+        let ov: Vec<VehicleIdx> = real
+            .iter()
+            .copied()
+            .filter(|v| {
+                let t = s.tour_of(*v).unwrap();
+                t.start_depot().unwrap() == osd || t.end_depot().unwrap() == oed
+            })
+            .collect();
+        pick(&ov, &serde_json::json!(n - 5000))
+    } else {
+        pick3(all, real, dummies, k)
     }
 }
 
@@ -108,7 +129,7 @@ pub fn run(case: &serde_json::Value, out: &mut String) {
                         }
                     }
                 },
-                "addpath" => match pick(&real, &op[1]) {
+                "addpath" => match (if op[1].as_u64().unwrap() >= 1000 { pick4(&s, &all, &real, &dummies, &op[1]).filter(|v| real.contains(v)) } else { pick(&real, &op[1]) }) {
                     None => Outcome::Skip,
                     Some(v) => {
                         let nodes = nodes_of(&op[2]);
